@@ -615,11 +615,13 @@ UNKNOWN_KEYS = ['x', 'X-y', 'my-option', 'another_option', 'length2', 'len',
                 'preserve_trailing_newline', 'fp', 'cls', 'options', 'section',
                 'content', 'data', 'kwargs', 'args', 'newline', 'lines',
                 'level', 'line', 'text', 'metadata', 'diff', 'Indent',
-                'Encoding', 'Format', 'LINE_ENDINGS', 'Version', 'TYPE']
+                'Encoding', 'Format', 'LINE_ENDINGS', 'Version', 'TYPE',
+                'Line_Endings', 'INDENT', 'ENCODING', 'lENGTH', 'MimeType']
 UNKNOWN_VALUES = ['v', 'value', '1', '0', '-1', '42', '007', '-0', '1.0',
                   '1.5', 'abc', '/', '/x', './a', '-', '.', '_', 'a/b.c-d_e',
                   'utf-8', 'dos', 'json', 'text/plain', '99999999999999999999',
-                  '-x', '..', 'A', '0x10', '1e3', 'True', 'None', 'nan']
+                  '-x', '..', 'A', '0x10', '1e3', 'True', 'None', 'nan',
+                  'utf-16', 'utf-32', 'cp037', '2', '3', 'unix']
 
 
 def int_corner(v):
